@@ -955,7 +955,7 @@ def search(ctx, res):
 # model; refuted as a theorem in Props/C19c `alias_include_two_refuted`).  The grammar keeps to ONE include, so the
 # check does not meet it; set the flag to report it as failure `include:two-includes-alias-override`
 # (proposed repair fixes/C19-fix_include_alias_override.diff).
-REPORT_TWO_INCLUDE_ALIAS = False
+REPORT_TWO_INCLUDE_ALIAS = True
 
 
 def two_include_card(expanded):
